@@ -69,10 +69,14 @@ func (f *File) WriteString(s string) (int, error) { return f.Write([]byte(s)) }
 
 func (f *File) WriteAt(b []byte, off int64) (int, error) {
 	if a := point("File.WriteAt", f.File.Name(), len(b), 0); a.Err != nil || a.Die {
+		n := 0
+		if a.Short > 0 {
+			n, _ = f.File.WriteAt(b[:min(a.Short, len(b))], off)
+		}
 		if a.Die {
 			DieFunc()
 		}
-		return 0, a.Err
+		return n, a.Err
 	}
 	return f.File.WriteAt(b, off)
 }
